@@ -14,22 +14,29 @@ L12 == VList(<<VInt(1), VInt(2)>>)
 L5  == VList(<<VInt(5)>>)
 P(text, segs) == SPath(text, segs)
 
+TOPT == VDict(<< <<VStr("opts"), VDict(<< <<VStr("a"), VInt(1)>> >>)>>, <<VStr("n"), VInt(2)>> >>)
+\* one spec OBJECT (sid 7) holding a list argument with sub-specs, called on two targets
+ArgSpec == SCoal(<<P("x", <<"x">>)>>, DefaultArgs(<<SProbe("id"), SRead("k")>>))
+
 FullPool == <<
   Call(T1, <<>>, 1, P("*", <<"*">>)),                                      \* star-sensitive
-  Call(T1, <<>>, 2, P("a.*", <<"a", "*">>)),                               \* star-sensitive, 2 segments
-  Call(OA, <<>>, 3, P("a", <<"a">>)),                                      \* registry-sensitive (get)
-  Call(T1, << <<"k", VInt(7)>> >>, 4,                                      \* dict + Coalesce default container + caller scope
+  Call(OA, <<>>, 2, P("a", <<"a">>)),                                      \* registry-sensitive (get)
+  Call(T1, << <<"k", VInt(7)>> >>, 3,                                      \* dict + Coalesce default container + caller scope
        SDict(<< <<"p", P("a.b", <<"a", "b">>)>>,
                 <<"q", SCoal(<<P("x", <<"x">>)>>, Default(VList(<<>>)))>>,
                 <<"r", SRead("k")>> >>)),
-  Call(L12, <<>>, 5, SAcc("group", "inc")),                                \* Group accumulators
-  Call(L5, <<>>, 5, SAcc("group", "inc")),                                 \* the same spec object on another target
-  Call(L12, <<>>, 7, SAcc("fold", "inc")),                                 \* Fold accumulator
-  Call(OA, <<>>, 8, SEach("iter", SProbe("id"))),                          \* registry-sensitive (iterate), Iter
-  Call(T1, <<>>, 9, STuple(<<P("a", <<"a">>), SBind("x", P("b", <<"b">>)),
+  Call(L12, <<>>, 4, SAcc("group", "inc")),                                \* Group accumulators
+  Call(L5, <<>>, 4, SAcc("group", "inc")),                                 \* the same spec object on another target
+  Call(OA, <<>>, 6, SEach("iter", SProbe("id"))),                          \* registry-sensitive (iterate), Iter
+  Call(T1, << <<"k", VInt(7)>> >>, 7, ArgSpec),                            \* list argument with sub-specs (arg_val) ...
+  Call(L5, << <<"k", VInt(8)>> >>, 7, ArgSpec),                            \* ... the same object on another target / scope
+  Call(TOPT, <<>>, 9, SInvoke(P("opts", <<"opts">>), "k", VInt(9))),       \* Invoke: star-kwargs from the target, then constants
+  Call(T1, <<>>, 10, P("a.*", <<"a", "*">>)),                              \* star-sensitive, 2 segments
+  Call(L12, <<>>, 11, SAcc("fold", "inc")),                                \* Fold accumulator
+  Call(T1, <<>>, 12, STuple(<<P("a", <<"a">>), SBind("x", P("b", <<"b">>)),
                              SEach("list", SProbe("id")),
                              SFill(STuple(<<SProbe("id"), P("x", <<"x">>), SRead("x")>>))>>)),
-  Call(T1, <<>>, 10, SCoal(<<SNest(Call(T1, <<>>, 11, P("a.x", <<"a", "x">>))), P("a.b", <<"a", "b">>)>>, NoDefault))
+  Call(T1, <<>>, 13, SCoal(<<SNest(Call(T1, <<>>, 14, P("a.x", <<"a", "x">>))), P("a.b", <<"a", "b">>)>>, NoDefault))
 >>
 C06Pool == SubSeq(FullPool, 1, PoolSize)
 
